@@ -31,6 +31,12 @@ def gen_pattern(R, decorate=True, pep_bias=False):
     if "BUILD" in nums and "BLD" in nums:
         nums.remove("BLD")
     parts += nums
+    if len(parts) > 1 and parts[0] not in nums and nums and R.random() < 0.12:
+        # a numeric part in front of the calendar parts (MAJOR.0Y.BUILD): the year is then a later component
+        lead = nums[0] if nums[0] in ("MAJOR", "MINOR", "PATCH", "INC0", "INC1") else None
+        if lead:
+            parts.remove(lead)
+            parts.insert(0, lead)
     pat = R.choice(["", "", "v"])
     n_opt = 0
     seps = []
